@@ -153,6 +153,8 @@ pub struct CallSnap {
     pub o1: u64,
     pub returned_err: bool,
     pub returned_ok: bool,
+    /// the call panicked or hung
+    pub crashed: bool,
 }
 
 pub struct NodeRt {
@@ -460,6 +462,7 @@ impl World {
             o1: o0,
             returned_err: false,
             returned_ok: false,
+            crashed: false,
         });
         self.stats.calls += 1;
         c
@@ -493,6 +496,11 @@ impl World {
         if injected && matches!(r, Res::Err(..)) {
             self.aborted = Some(format!("injected fault surfaced in {what}: {b}"));
             return;
+        }
+        if matches!(r, Res::Panic(_) | Res::Hang(_)) {
+            if let Some(c) = self.calls.last_mut() {
+                c.crashed = true;
+            }
         }
         let clause = match r {
             Res::Panic(_) => "CALL.panic",
@@ -683,7 +691,11 @@ impl World {
                 self.expect_events(n, "append", &exp);
             }
             other => {
+                // the failure may have happened after the commit point (during the flush)
+                let mut after = self.nodes[n].model.clone();
+                after.append(&blocks);
                 self.end_call(c, false);
+                self.calls[c].after = after;
                 self.fail_call("append", &other);
             }
         }
@@ -794,10 +806,16 @@ impl World {
     }
 
     pub fn judge_info(&mut self, n: usize, info: &hypercore::Info, what: &str) {
+        let prefix = if n == 0 { "C01" } else { "C03" };
+        self.judge_info_as(n, info, what, prefix)
+    }
+
+    pub fn judge_info_as(&mut self, n: usize, info: &hypercore::Info, what: &str, prefix: &str) {
+        let cl = format!("{prefix}.info");
         let m = self.nodes[n].model.clone();
         if info.length != m.length || info.byte_length != m.byte_length {
             self.viol(
-                "C01.info",
+                &cl,
                 format!(
                     "{what}: info (length {}, byte_length {}) but model ({}, {})",
                     info.length, info.byte_length, m.length, m.byte_length
@@ -806,12 +824,12 @@ impl World {
         }
         if info.writeable != m.writable {
             self.viol(
-                "C01.info",
+                &cl,
                 format!("{what}: writeable {} but model {}", info.writeable, m.writable),
             );
         }
         if info.fork != 0 {
-            self.viol("C01.info", format!("{what}: fork {} expected 0", info.fork));
+            self.viol(&cl, format!("{what}: fork {} expected 0", info.fork));
         }
         let c = m.contiguous();
         if info.contiguous_length != c {
@@ -966,6 +984,12 @@ impl World {
 
     /// Full observation of node n compared with its model. Returns true if consistent.
     pub fn scan_and_judge(&mut self, n: usize, what: &str) -> bool {
+        let prefix = if n == 0 { "C01" } else { "C03" };
+        self.scan_and_judge_as(n, what, prefix)
+    }
+
+    pub fn scan_and_judge_as(&mut self, n: usize, what: &str, prefix: &str) -> bool {
+        let scan_cl = format!("{prefix}.scan");
         self.stats.scans += 1;
         let before = self.viols.len();
         {
@@ -973,7 +997,7 @@ impl World {
             st.call = u32::MAX;
         }
         let info = self.nodes[n].core.as_ref().unwrap().info();
-        self.judge_info(n, &info, what);
+        self.judge_info_as(n, &info, what, prefix);
         let idx = self.scan_indices(n, info.length);
         let model = self.nodes[n].model.clone();
         // has(): all indices below length plus boundary indices of the following pages (cheap)
@@ -1012,7 +1036,7 @@ impl World {
                         bad_has += 1;
                         let e = model.has(i);
                         self.viol("C08.has", format!("{what}: has({i}) = {h}, model {e}"));
-                        self.viol("C01.scan", format!("{what}: has({i}) = {h}, model {e}"));
+                        self.viol(&scan_cl, format!("{what}: has({i}) = {h}, model {e}"));
                     }
                 }
                 Guarded::Panic(m) | Guarded::Hang(m) => {
@@ -1032,7 +1056,7 @@ impl World {
                     if v.as_ref() != exp && bad_get < 3 {
                         bad_get += 1;
                         self.viol(
-                            "C01.scan",
+                            &scan_cl,
                             format!("{what}: get({i}) = {}, model {}", show_opt(&v), show_opt(&exp.cloned())),
                         );
                     }
@@ -1042,7 +1066,7 @@ impl World {
                     if matches!(other, Res::Err(..)) && self.fault_fired(n) {
                         // not judged here
                     }
-                    self.viol("C01.scan", format!("{what}: get({i}) failed: {b}"));
+                    self.viol(&scan_cl, format!("{what}: get({i}) failed: {b}"));
                     if self.nodes[n].dead {
                         self.aborted = Some(format!("get({i}) died: {b}"));
                         return false;
